@@ -391,14 +391,18 @@ def build_api_doc(name: str, path: Path):
             for c in range(4):
                 if (r + c) % 4 != 3:
                     t.write(r, c, vals[(r * 4 + c) % len(vals)])
+        t.write(0, 1, 1234.5678)
+        t.write(1, 2, 99.5)
         t.set_cell_formatting(0, 1, "number", decimal_places=3)
         t.set_cell_formatting(1, 2, "currency", currency_code="EUR")
         t.merge_cells("A9:B10")
-        s2 = doc.add_sheet("Second", "Other table", num_rows=3, num_cols=2)
+        doc.add_sheet("Second", "Other table", num_rows=3, num_cols=2)
+        s2 = doc.sheets[1]
         t2 = s2.tables[0]
         t2.write(0, 0, "other")
         t2.write(2, 1, 7)
-        t3 = s2.add_table("Third table", num_rows=6, num_cols=2)
+        s2.add_table("Third table", num_rows=6, num_cols=2)
+        t3 = s2.tables[1]
         t3.write(5, 1, "last row only")
     elif name == "two-tiles":
         for r in list(range(0, 300, 7)) + [255, 256, 257, 299]:
@@ -585,7 +589,7 @@ def store_correspondence(ctx: Ctx, exe, path, rd: Reading, label):
         ctx.disagree("doc-store", label, f"{len(model_pairs)} objects, {len(model_files)} files; first diff "
                      f"{next((a for a, b in zip(model_pairs, impl_pairs) if a != b), '')}",
                      f"{len(impl_pairs)} objects, {len(impl_files)} files")
-    if pack.form == "zip" and not any(n.lower().endswith("index.zip") for n in names):
+    if pack.form == "zip" and not pack.nested:
         # dict order too (zip order is the member order the model was given)
         if mo.split(",") != [f"{i}={n.encode().hex()}" for i, n in o2f.items()]:
             ctx.disagree("doc-store-order", label, mo[:120], ",".join(f"{i}={n.encode().hex()}" for i, n in list(o2f.items())[:6]))
